@@ -31,6 +31,15 @@ CHECKS["C14"] = dict(
     design_ref="4/C14",
 )
 
+CHECKS["C15"] = dict(
+    engine="mirsym",
+    technique="SMT (z3/cvc5, f64 + bit-vectors) over a symbolic execution of the real MIR of CloseGroupValidator::validate_membership with validate_bft, validate_trust_weighted, count_confirming_regions, detect_collusion_indicators and their closures; one obligation set per witness count",
+    category="proof",
+    text="Bounded proof by SMT of the whole verdict function for every witness set of each size 0..5 (quick) / 0..7 (thorough) over symbolic confirmations, trust values, regions, latencies and a symbolic configuration: BFT acceptance implies the Byzantine quorum conditions, f liars among 3f+1 trusted witnesses cannot force acceptance, normal-mode acceptance iff the confirming trust share reaches the threshold, monotonicity under confirmation->denial, completeness for unanimous spread witnesses. Counterexamples are replayed natively before being reported.",
+    note="Trusts the iterator/Vec/sort/HashSet summaries listed in the evidence, IEEE-754 semantics of the solvers (an uninterpreted-function abstraction of f64 arithmetic is tried first: sound for unsat), single-threaded execution. Normal-mode trust values restricted to the property's grid {0.1,0.29,0.3,0.9}; witness counts above the bound and the cached validate() path are outside.",
+    design_ref="4/C15",
+)
+
 NA = {
     "C01": "monolithic async fn over tokio/QUIC transport with string-keyed hash sets and timeouts; no solver-reachable encoding of the real code",
     "C02": "pending: routing-table kernel check not built yet",
